@@ -319,7 +319,8 @@ func vFFCase(r *vrng, out *vWriter, ci int) {
 		}
 	case sw == 6:
 		// supplied start ABOVE the ceiling (walletrpc BumpFee can do
-		// this: DESIGN §7-b)
+		// this: finding C18-F1, fixed by lnd commit 1567bc7) - kept
+		// as regression input: must start AT the ceiling
 		hasStart = true
 		startV = maxr + r.rng(1, 1+maxr)
 	}
@@ -952,8 +953,8 @@ func TestVerifFee(t *testing.T) {
 		ci++
 	}
 	for i := 0; i < npub; i++ {
-		// every 15th publisher case is generated in the known-finding
-		// input class (supplied start above MaxFeeRate)
+		// every 15th publisher case is a regression input for the
+		// fixed finding C18-F1 (supplied start above MaxFeeRate)
 		vPubCase(master.fork(uint64(ci)), out, ci, i%15 == 7)
 		ci++
 	}
